@@ -20,6 +20,7 @@ def generate(ctx):
 ALL_PARAMS = dict(status_mask=0x0F, severity_mask=0x20, dtc=0x123456, snapshot_record_number=1, extended_data_record_number=2,
                   extended_data_size=1, memory_selection=3, functional_group_id=0x33)
 ONLY2020 = {0x16, 0x17, 0x18, 0x19, 0x1A, 0x42, 0x55, 0x56}
+DEFINED = set(range(1, 0x1B)) | {0x42, 0x55, 0x56}      # ISO 14229-1:2020 ReadDTCInformation subfunctions the library defines
 
 
 def suite_matrix(ctx):
@@ -44,7 +45,7 @@ def suite_matrix(ctx):
             if sf in ONLY2020 and std < 2020:
                 if verdict != 'other:notimpl' or touched:
                     s.fail(dict(rec, observed='%s, connection touched=%s' % (verdict, touched), required='refused (NotImplementedError) before anything is sent'))
-            elif sf == 0:
+            elif sf not in DEFINED:
                 if touched:
                     s.fail(dict(rec, observed='sent %s' % [x.hex() for x in sends], required='rejected'))
             elif not sends:
